@@ -103,6 +103,29 @@ def map_strategy(kind, overlap):
     return s
 
 
+def burst_strategy(tier):
+    """LSM workloads shaped for states that only bursts of writers reach: several writers starting at (almost) the same instant
+    with zero gaps over-fill a small memtable before the first is_full check (L0 tables of unequal size) and freeze a second
+    memtable while the first flush is still in its (long) write latency (two frozen memtables holding the same key), with scans
+    and gets issued inside those windows; then one late worker overwrites, deletes, reads and scans sequentially so that
+    compactions run over the irregular L0 and the result is read back."""
+    big = tier == "thorough"
+    nk = 3
+    code = st.sampled_from([0, 0, 0, 1, 2, 2, 5, 7, 6, 3])                    # mostly puts, scans, some deletes/gets
+    bop = st.tuples(code, st.integers(0, nk), st.sampled_from([0, 0, 0, 0, 1]), st.integers(0, nk)).map(list)
+    top = st.tuples(st.sampled_from([0, 0, 1, 2, 3, 4, 5, 7, 6]), st.integers(0, nk), st.sampled_from([0, 0, 1, 2, 4]),
+                    st.integers(0, nk)).map(list)
+    burst = st.lists(st.fixed_dictionaries({"start": st.sampled_from([0, 0, 0, 0, 1, 2, 3]),
+                                            "ops": st.lists(bop, min_size=1, max_size=5 if big else 4)}), min_size=3, max_size=5)
+    tail = st.fixed_dictionaries({"start": st.sampled_from([6, 12, 20, 30, 45]), "ops": st.lists(top, min_size=3, max_size=16 if big else 10)})
+    cfg = st.fixed_dictionaries({
+        "strat": st.sampled_from([0, 0, 0, 0, 1, 2]), "p1": st.sampled_from([0, 0, 0, 1, 2]), "p2": st.integers(0, 3),
+        "mem": st.sampled_from([0, 1, 1, 1, 2]), "levels": st.integers(0, 2), "wl": st.sampled_from([1, 3, 5, 7, 7]),
+        "rl": st.integers(0, 5), "wal": st.sampled_from([0, 0, 0, 0, 1, 2]), "ww": st.integers(0, 3), "ws": st.integers(0, 3)})
+    return st.tuples(cfg, st.integers(3, nk + 1), st.lists(st.integers(0, nk), max_size=3), burst, tail).map(
+        lambda t: {"cfg": t[0], "nkeys": t[1], "pre": t[2], "workers": t[3] + [t[4]]})
+
+
 def run_map_case(kind, case, stop_after=None):
     """Build the store and run the workload.  Returns (harness, store, info dict)."""
     cfg = case.get("cfg") if isinstance(case.get("cfg"), dict) else {}
@@ -274,7 +297,7 @@ def map_execute(kind, obl):
             deepest = bool(store._levels[-1])
             r.labels += [f"flushes>={min(n_fl, 4)}", f"compactions>={min(n_co, 3)}"] + (["deepest-level-reached"] if deepest else []) \
                 + (["scan-over-tombstone"] if tomb_scan else [])
-            if "overlap" in obl:
+            if "overlap" in obl or "burst" in obl:
                 r.nontrivial = n_overlap > 0
                 r.target = float(n_overlap)
             else:
@@ -282,7 +305,7 @@ def map_execute(kind, obl):
                 r.target = float(n_co + (2 if deepest else 0))
         elif kind == "btree":
             r.labels += [f"depth{min(store.depth, 4)}", f"splits>={min(len(marks), 4)}"]
-            if "overlap" in obl:
+            if "overlap" in obl or "burst" in obl:
                 r.nontrivial = n_overlap > 0
                 r.target = float(n_overlap)
             else:
@@ -548,6 +571,12 @@ OBLIGATIONS = [
                "non-trivial = at least one compaction, one delete and one read"),
     Obligation("lsm-overlap", map_strategy("lsm", True), map_execute("lsm", "lsm-overlap"), {"quick": 1800, "thorough": 60000},
                _MAP_RULE + "2-4 workers; non-trivial = a get/scan whose interval overlaps an observed flush or compaction interval"),
+    Obligation("lsm-burst", burst_strategy, map_execute("lsm", "lsm-burst"), {"quick": 1000, "thorough": 40000},
+               _MAP_RULE + "3-5 writers starting within 0-3 ticks with zero gaps (mostly puts and scans over 3-4 keys; memtable 1-3, SSTable "
+               "write latency up to 8 ticks, mostly size-tiered with 2-4 tables) so that a memtable is over-filled before the first "
+               "is_full check (L0 tables of unequal size) and two or more frozen memtables wait for their flush at once, plus one late "
+               "worker that overwrites, deletes, reads and scans sequentially across the following compactions; non-trivial = a get/scan "
+               "overlaps a flush or compaction interval"),
     Obligation("btree-seq", map_strategy("btree", False), map_execute("btree", "btree-seq"), {"quick": 400, "thorough": 20000},
                _MAP_RULE + "one worker on BTree order 3-5; non-trivial = a split happened, depth>=2 and a read followed"),
     Obligation("btree-overlap", map_strategy("btree", True), map_execute("btree", "btree-overlap"), {"quick": 700, "thorough": 30000},
